@@ -54,6 +54,16 @@ func ruleRW(w *world.World, r *report.RuleResult) {
 	}
 	rewriteHeld := inter(a.HeldAt(cp), a.HeldAt(tr))
 	writeHeld := inter(a.HeldAt(d.hcall), a.HeldAt(d.logCalls[0]))
+	for _, hc := range d.hcalls[1:] {
+		held := a.HeldAt(hc)
+		var keep []string
+		for _, k := range writeHeld {
+			if _, ok := held[k]; ok {
+				keep = append(keep, k)
+			}
+		}
+		writeHeld = keep
+	}
 	var common []string
 	for _, k := range rewriteHeld {
 		for _, k2 := range writeHeld {
